@@ -274,6 +274,20 @@ func (l *Link) Drain() int {
 	return n
 }
 
+// WriterClosed reports whether the writing side has been closed (the reader sees EOF).
+func (l *Link) WriterClosed() bool {
+	l.W.mu.Lock()
+	defer l.W.mu.Unlock()
+	return l.eof
+}
+
+// ReaderClosed reports whether the reading side has been closed.
+func (l *Link) ReaderClosed() bool {
+	l.W.mu.Lock()
+	defer l.W.mu.Unlock()
+	return l.rclosed
+}
+
 // Pending reports bytes queued but not yet read.
 func (l *Link) Pending() int {
 	l.W.mu.Lock()
@@ -397,6 +411,19 @@ func (c *Conn) RemoteAddr() net.Addr               { return c.remote }
 func (c *Conn) SetDeadline(t time.Time) error      { return nil }
 func (c *Conn) SetReadDeadline(t time.Time) error  { return nil }
 func (c *Conn) SetWriteDeadline(t time.Time) error { return nil }
+
+// ListenerOf returns the open listener owned by process p (nil if none).
+func (w *World) ListenerOf(p *Proc) *Listener {
+	w.mu.Lock()
+	defer w.mu.Unlock()
+	var best *Listener
+	for _, l := range w.NetPorts {
+		if l.Owner == p && (best == nil || l.port < best.port) {
+			best = l
+		}
+	}
+	return best
+}
 
 // Dial connects to a simulated port; it returns the client side or nil when nobody listens.
 // cfg (optional) is applied to both links of the connection.
